@@ -4,7 +4,7 @@ verus! {
 
 /// what one input contributes: itself when already at the target resolution, else its children there
 pub open spec fn self_or_kids(x: u64, t: int) -> Seq<u64> {
-    if res_of(x) == t { seq![x] } else { kids_ids(dec(x), t) }
+    if res_of(x) == t { seq![enc(dec(x))] } else { kids_ids(dec(x), t) }
 }
 
 pub open spec fn flat(l: Seq<u64>, t: int, n: int) -> Seq<u64>
@@ -65,6 +65,7 @@ pub proof fn thm_self_or_kids(x: u64, t: int)
     let c = dec(x);
     lemma_res_of_enc(c);
     if res_of(x) == t {
+        assert(enc(dec(x)) == x);
         assert(self_or_kids(x, t) =~= seq![x]);
         assert(fan(t, t) == 1);
         assert forall|y: u64| #[trigger] self_or_kids(x, t).contains(y) implies canonical(y) && res_of(y) == t
@@ -94,6 +95,36 @@ pub proof fn thm_flat_len(l: Seq<u64>, t: int, n: int)
     if n > 0 {
         thm_flat_len(l, t, n - 1);
         thm_self_or_kids(l[n - 1], t);
+    }
+}
+
+
+/// C05/C14: every ID uncompact returns is canonical, also when the inputs are non-canonical aliases
+pub proof fn thm_flat_canonical(l: Seq<u64>, t: int, n: int)
+    requires 0 <= n <= l.len(), t <= 29, forall|i: int| 0 <= i < n ==> decodable(#[trigger] l[i]) && res_of(l[i]) <= t,
+    ensures forall|k: int| 0 <= k < flat(l, t, n).len() ==> canonical(#[trigger] flat(l, t, n)[k]) && res_of(flat(l, t, n)[k]) == t,   // [C14:uncompact.canonical-output]
+    decreases n,
+{
+    if n > 0 {
+        thm_flat_canonical(l, t, n - 1);
+        let x = l[n - 1];
+        lemma_enc_dec(x);
+        lemma_dec_res(x);
+        let c = dec(x);
+        let a = flat(l, t, n - 1);
+        let b = self_or_kids(x, t);
+        assert forall|k: int| 0 <= k < b.len() implies canonical(#[trigger] b[k]) && res_of(b[k]) == t by {
+            if res_of(x) == t {
+                lemma_res_of_enc(c);
+            } else {
+                thm_kids_exact(c, t);
+                assert(kids_ids(c, t).contains(b[k]));
+                lemma_res_of_enc(dec(b[k]));
+            }
+        }
+        assert forall|k: int| 0 <= k < (a + b).len() implies canonical(#[trigger] (a + b)[k]) && res_of((a + b)[k]) == t by {
+            if k < a.len() { assert((a + b)[k] == a[k]); } else { assert((a + b)[k] == b[k - a.len()]); }
+        }
     }
 }
 
